@@ -14,14 +14,15 @@
   Model: AY/Model/Resolve.lean.  Helper lemmas: AY/Lemmas/C12Lemmas.lean.
 
   What is proved here is the *logic around* the interpreter: the resolution order implemented by the
-  dict-subclass mechanism, the textual split of the code, the normalisation of the two f-string
-  forms, and the provenance of the names in the namespace registry across builds.  That CPython's
-  `exec`/`eval` computes "what Python computes" on the prepared namespace is not a theorem: CPython is
-  the reference, sampled by the program generator of harness/props/c12.py.
+  dict-subclass mechanism, what is done with the parsed statements of the code, the normalisation of
+  the f-string forms, and the provenance of the names in the namespace registry across builds.  That
+  CPython's parser and `exec`/`eval` compute "what Python computes" on the prepared namespace is not a
+  theorem: CPython is the reference, sampled by the program generator of harness/props/c12.py.
 
-  Three clauses are FALSE for the code as it is; each is proved false on a witness that was replayed
-  on the implementation (see the harness corpus and KNOWN_FINDINGS candidates D11, D23, D24):
-  `C12_history_independent_fails`, `C12_split_code_textual`, `C12_class_body_skips_config`.
+  One clause is FALSE for the code as it is and is proved false on a witness that was replayed on the
+  implementation (KNOWN_FINDINGS D26): `C12_class_body_skips_config`.  The former negations about the
+  cached namespace (D11), the textual `;` split (D23) and the escaping of quotes in `!fstr` (D25) are
+  gone with their repairs; `C12_history_independent` now holds at full strength.
 -/
 import AY.Lemmas.C12Lemmas
 
@@ -71,7 +72,7 @@ example : resolve ["n"] ["n"] ["n"] ["n"] "n" = .defn ∧ resolve [] ["n"] ["n"]
     resolve [] [] [] [] "n" = .nameError := by decide
 
 /--
-FINDING (D24), negation of "config names visible" for class bodies: `LOAD_NAME` with separate locals
+FINDING (D26), negation of "config names visible" for class bodies: `LOAD_NAME` with separate locals
 reads the globals with `PyDict_GetItem`, so `__missing__` is not called.  For every namespace, a name
 that is only a config entry resolves to the config entry at module level and inside functions but is
 a `NameError` directly inside a class body.
@@ -91,157 +92,93 @@ example :
 example : (Globals.lookup [] { dict := freshDict ⟨0, [], ["ayns"]⟩, cfg := ["ayns"], build := 0 } "ayns").1
     = .injected := by decide
 
-/-! ### 2. the split of the code text -/
+/-! ### 2. what is done with the statements of the code -/
 
 /--
-C12, "all but the last line executed, the last line evaluated": the pieces of the code are the
-executed ones followed by exactly one more piece, and the evaluated text is that piece, stripped.
+C12, "all but the last line executed, the last line evaluated" (for Python's own statements): the
+code runs exactly when its last statement is an expression statement; then the executed part is all
+statements before it, in order, and the evaluated expression is that last statement.
 -/
-theorem C12_split_code_last (code : Str) :
-    ∃ last, splitStmts code = (splitCodeL code).1 ++ [last] ∧ (splitCodeL code).2 = strip last := by
-  refine ⟨(splitStmts code).getLast?.getD [], ?_, rfl⟩
-  exact (dropLast_append_getLast _ (splitStmts_ne_nil code)).symm
+theorem C12_split_code_last (body ex : List Stmt) (ev : String) :
+    splitStmts body = some (ex, ev) ↔ body = ex ++ [.expr ev] := by
+  unfold splitStmts
+  constructor
+  · intro h
+    cases hb : body.getLast? with
+    | none => simp [hb] at h
+    | some l =>
+      have hne : body ≠ [] := by intro e; simp [e] at hb
+      have hl : body.getLast hne = l := by
+        have := List.getLast?_eq_some_getLast hne; rw [this] at hb; exact Option.some.inj hb
+      cases l with
+      | other t => simp [hb] at h
+      | expr e =>
+        simp only [hb, Option.some.injEq, Prod.mk.injEq] at h
+        rw [← h.1, ← h.2, ← hl]
+        exact (List.dropLast_concat_getLast hne).symm
+  · intro h
+    subst h
+    simp
 
-example : splitCodeL "x = 1\ny = x + 1; z = 2\n x + y \n".toList
-    = (["x = 1".toList, "y = x + 1".toList, " z = 2".toList], "x + y".toList) := by decide
+example : splitStmts [.other "x = 1", .other "if c: x = 1; y = 2", .expr "x + y"]
+    = some ([.other "x = 1", .other "if c: x = 1; y = 2"], "x + y") := by decide
 
 /--
-C12, single-statement code: when the stripped code contains neither a newline nor a semicolon,
-nothing is executed and the whole stripped code is evaluated.
+C12, the error clause of the split: the code is rejected (SyntaxError, surfacing as EvalError) exactly
+when it has no statement or its last statement is not an expression.
 -/
-theorem C12_split_code_single (code : Str) (h1 : '\n' ∉ strip code) (h2 : ';' ∉ strip code) :
-    splitCodeL code = ([], strip code) := by
-  have : splitStmts code = [strip code] := by
-    simp [splitStmts, splitOn_single _ _ h1, splitOn_single _ _ h2]
-  simp [splitCodeL, this, strip_idem]
+theorem C12_split_code_error (body : List Stmt) :
+    splitStmts body = none ↔ body = [] ∨ ∃ pre t, body = pre ++ [.other t] := by
+  unfold splitStmts
+  constructor
+  · intro h
+    cases hb : body.getLast? with
+    | none => left; simpa using hb
+    | some l =>
+      have hne : body ≠ [] := by intro e; simp [e] at hb
+      have hl : body.getLast hne = l := by
+        have := List.getLast?_eq_some_getLast hne; rw [this] at hb; exact Option.some.inj hb
+      cases l with
+      | expr e => simp [hb] at h
+      | other t => right; exact ⟨body.dropLast, t, by rw [← hl]; exact (List.dropLast_concat_getLast hne).symm⟩
+  · rintro (h | ⟨pre, t, h⟩) <;> subst h <;> simp
 
-example : splitCodeL "  a + b  ".toList = ([], "a + b".toList) := by decide
-
-theorem flatten_flatMap_splitOn (sep : Char) (ls : List Str) :
-    (ls.flatMap (splitOn sep)).flatten = ls.flatten.filter (fun c => c != sep) := by
-  induction ls with
-  | nil => rfl
-  | cons l rest ih =>
-    simp [List.flatMap_cons, List.flatten_append, flatten_splitOn, ih]
-
-theorem length_flatMap_splitOn (sep : Char) (ls : List Str) :
-    (ls.flatMap (splitOn sep)).length = (ls.flatten.filter (fun c => c == sep)).length + ls.length := by
-  induction ls with
-  | nil => rfl
-  | cons l rest ih =>
-    simp only [List.flatMap_cons, List.length_append, length_splitOn, ih, List.flatten_cons,
-      List.filter_append, List.length_cons]
-    omega
-
-theorem count_two (s : Str) :
-    (s.filter (fun c => c == ';' || c == '\n')).length
-      = (s.filter (fun c => c == ';' && c != '\n')).length + (s.filter (fun c => c == '\n')).length := by
-  induction s with
-  | nil => rfl
-  | cons c cs ih =>
-    by_cases h1 : c = ';'
-    · subst h1; simp at ih ⊢; omega
-    · by_cases h2 : c = '\n'
-      · subst h2; simp at ih ⊢; omega
-      · simp [h1, h2] at ih ⊢; omega
+example : splitStmts [] = none ∧ splitStmts [.expr "x", .other "y = 1"] = none := by decide
 
 /--
-C12, "joining back loses nothing but separators": the concatenation of all pieces is the stripped
-code with exactly the newlines and semicolons removed; no piece contains a newline or a semicolon;
-and the number of pieces is one more than the number of those separators.
+C12, single-statement code and publication: whenever the code runs, `len(tree.body) > 1` (the
+condition for publishing a module) holds exactly when something is executed before the evaluation,
+and code that is one expression has an empty executed part.
 -/
-theorem C12_split_code_lossless (code : Str) :
-    (splitStmts code).flatten = (strip code).filter (fun c => c != ';' && c != '\n') ∧
-    (∀ p ∈ splitStmts code, '\n' ∉ p ∧ ';' ∉ p) ∧
-    (splitStmts code).length = ((strip code).filter (fun c => c == ';' || c == '\n')).length + 1 := by
-  refine ⟨?_, ?_, ?_⟩
-  · unfold splitStmts
-    rw [flatten_flatMap_splitOn, flatten_splitOn, List.filter_filter]
-  rotate_left
-  · unfold splitStmts
-    rw [length_flatMap_splitOn, flatten_splitOn, length_splitOn, List.filter_filter]
-    have h := count_two (strip code)
-    omega
-  · intro p hp
-    unfold splitStmts at hp
-    obtain ⟨l, hl, hpl⟩ := List.mem_flatMap.mp hp
-    refine ⟨?_, splitOn_noSep ';' l p hpl⟩
-    have hnl := splitOn_noSep '\n' (strip code) l hl
-    intro hm
-    apply hnl
-    -- a piece of `l` is made of characters of `l`
-    have : ∀ x ∈ (splitOn ';' l).flatten, x ∈ l := by
-      rw [flatten_splitOn]; intro x hx; exact (List.mem_filter.mp hx).1
-    exact this _ (List.mem_flatten.mpr ⟨p, hpl, hm⟩)
+theorem C12_split_code_single (body ex : List Stmt) (ev : String) (h : splitStmts body = some (ex, ev)) :
+    (multiStmt body = true ↔ ex ≠ []) ∧ (body = [.expr ev] ↔ ex = []) := by
+  have hb := (C12_split_code_last body ex ev).mp h
+  subst hb
+  constructor
+  · cases ex <;> simp [multiStmt]
+  · cases ex <;> simp
 
-example : (splitStmts "a=1;b=2\nc".toList).flatten = "a=1b=2c".toList := by decide
-
-theorem mem_joinSep (sep : Char) (ps : List Str) (c : Char) (h : c ∈ joinSep sep ps) :
-    c = sep ∨ ∃ p ∈ ps, c ∈ p := by
-  induction ps with
-  | nil => simp [joinSep] at h
-  | cons p rest ih =>
-    cases rest with
-    | nil => right; exact ⟨p, by simp, by simpa [joinSep] using h⟩
-    | cons q rest' =>
-      rw [joinSep_cons _ _ _ (by simp)] at h
-      rcases List.mem_append.mp h with h | h
-      · right; exact ⟨p, by simp, h⟩
-      · rcases List.mem_cons.mp h with h | h
-        · left; exact h
-        · rcases ih h with h | ⟨x, hx, hc⟩
-          · left; exact h
-          · right; exact ⟨x, List.mem_cons_of_mem _ hx, hc⟩
-
-theorem flatMap_splitOn_joinSep (sep : Char) (lss : List (List Str))
-    (hne : ∀ l ∈ lss, l ≠ []) (h : ∀ l ∈ lss, ∀ p ∈ l, sep ∉ p) :
-    (lss.map (joinSep sep)).flatMap (splitOn sep) = lss.flatten := by
-  induction lss with
-  | nil => rfl
-  | cons l rest ih =>
-    simp only [List.map_cons, List.flatMap_cons, List.flatten_cons]
-    rw [splitOn_joinSep sep l (hne l (by simp)) (h l (by simp)),
-      ih (fun x hx => hne x (List.mem_cons_of_mem _ hx)) (fun x hx => h x (List.mem_cons_of_mem _ hx))]
+example : splitStmts [.expr "a + b"] = some ([], "a + b") ∧ multiStmt [.expr "a + b"] = false := by decide
 
 /--
-C12, the split recovers the statements: for every layout of statements on lines (`lss`: the
-statements of every line, joined by `';'`; the lines joined by newlines) in which no statement
-contains a newline or a semicolon and the text has no leading or trailing whitespace, the executed
-pieces are all statements but the last and the evaluated text is the last statement, stripped.
+C12, nothing is lost: the sources of the executed statements followed by the evaluated expression
+are the sources of all statements of the code, in order.
 -/
-theorem C12_split_code_statements (lss : List (List Str)) (hne : lss ≠ []) (hl : ∀ l ∈ lss, l ≠ [])
-    (hs : ∀ l ∈ lss, ∀ p ∈ l, '\n' ∉ p ∧ ';' ∉ p)
-    (hstrip : strip (joinSep '\n' (lss.map (joinSep ';'))) = joinSep '\n' (lss.map (joinSep ';'))) :
-    splitCodeL (joinSep '\n' (lss.map (joinSep ';')))
-      = (lss.flatten.dropLast, strip (lss.flatten.getLast?.getD [])) := by
-  have hlines : splitOn '\n' (joinSep '\n' (lss.map (joinSep ';'))) = lss.map (joinSep ';') := by
-    apply splitOn_joinSep
-    · simpa using hne
-    · intro p hp hm
-      obtain ⟨l, hl', rfl⟩ := List.mem_map.mp hp
-      rcases mem_joinSep ';' l '\n' hm with h | ⟨x, hx, hc⟩
-      · exact absurd h (by decide)
-      · exact (hs l hl' x hx).1 hc
-  have : splitStmts (joinSep '\n' (lss.map (joinSep ';'))) = lss.flatten := by
-    unfold splitStmts
-    rw [hstrip, hlines]
-    exact flatMap_splitOn_joinSep ';' lss hl (fun l hl' p hp => (hs l hl' p hp).2)
-  simp [splitCodeL, this]
+theorem C12_split_code_lossless (body ex : List Stmt) (ev : String) (h : splitStmts body = some (ex, ev)) :
+    ex.map Stmt.src ++ [ev] = body.map Stmt.src := by
+  have hb := (C12_split_code_last body ex ev).mp h
+  subst hb
+  simp [Stmt.src]
 
-example : splitCodeL (joinSep '\n' ([["a = 1".toList, "b = 2".toList], ["a + b".toList]].map (joinSep ';')))
-    = (["a = 1".toList, "b = 2".toList], "a + b".toList) := by decide
-
-/--
-FINDING (D23), the split is textual: a semicolon inside a string literal is a split point (the code
-`'a;b'`, a valid Python expression with value 'a;b', is cut into `'a` and `b'`), and the piece after
-`"; "` keeps its leading blank, which `exec` rejects as an unexpected indent.
--/
-theorem C12_split_code_textual :
-    splitCodeL "'a;b'".toList = (["'a".toList], "b'".toList) ∧
-    splitCodeL "x = 1; y = 2\nx + y".toList = (["x = 1".toList, " y = 2".toList], "x + y".toList) := by
-  decide
+example : (([Stmt.other "a=1", .other "b=2"].map Stmt.src) ++ ["c"])
+    = [Stmt.other "a=1", .other "b=2", .expr "c"].map Stmt.src := by decide
 
 /-! ### 3. f-string normalisation -/
+
+theorem fits_sq (fmt : Str) (h1 : '\'' ∉ fmt) (h2 : '\n' ∉ fmt) : fits fmt ['\''] = true := by
+  have hl : fmt.getLast? ≠ some '\'' := by
+    intro h; exact h1 (List.mem_of_getLast? h)
+  simp [fits, hasSub_single, h1, h2, hl]
 
 /--
 C12, "An f-string node equals the corresponding Python f-string": the implicit form `f'fmt'` and the
@@ -255,17 +192,57 @@ theorem C12_fstr_normalise (fmt : Str) (h1 : '\'' ∉ fmt) (h2 : '\n' ∉ fmt) (
   have hq : isQuote '\'' = true := by decide
   constructor
   · simp [normFstrL, fstrRegex_fLit _ _ hq, fixFstr, wellFormed_fLit _ _ hq, h2]
-  · simp [normFstrL, fixFstr, h3, (escapeQ_eq_self_iff fmt).mpr h1]
+  · simp [normFstrL, fixFstr, h3, find_quotes_first fmt (fits_sq fmt h1 h2), fLitQ, fLit]
 
 example : normFstrL false "f'x{a}'".toList = some "f'x{a}'".toList ∧
     normFstrL true "x{a}".toList = some "f'x{a}'".toList := by decide
 
 /--
+C12, the explicit form never alters the text when a delimiter fits: for a text that is not itself a
+literal, if `q` is the first of the four delimiters (single quote, double quote, three single quotes,
+three double quotes) that does not occur in the text, does not meet the text's last character and can
+hold its newlines, the node's code is `f q text q`; `q` does not occur in the text, and the format
+text of that literal is the text itself, character for character (in particular quotes inside
+replacement fields stay as they are).  Only when no delimiter fits is the old escaping used, and a
+delimiter is found whenever one fits.
+-/
+theorem C12_fstr_explicit (fmt : Str) (h : wellFormed fmt = false) :
+    (∀ q, quotes.find? (fits fmt) = some q →
+        normFstrL true fmt = some (fLitQ q fmt) ∧ q ∈ quotes ∧ hasSub q fmt = false ∧
+        fstrText q (fLitQ q fmt) = fmt) ∧
+    ((∀ q ∈ quotes, fits fmt q = false) → normFstrL true fmt = some (fLit '\'' (escapeQ fmt))) ∧
+    ((∃ q ∈ quotes, fits fmt q = true) → ∃ q, quotes.find? (fits fmt) = some q) := by
+  refine ⟨?_, ?_, ?_⟩
+  · intro q hq
+    have hfit : fits fmt q = true := List.find?_some hq
+    have hsub : hasSub q fmt = false := by
+      simp only [fits, Bool.and_eq_true, Bool.not_eq_eq_eq_not, Bool.not_true] at hfit
+      exact hfit.1.1
+    exact ⟨by simp [normFstrL, fixFstr, h, hq], List.mem_of_find?_eq_some hq, hsub, fstrText_fLitQ q fmt⟩
+  · intro hno
+    have : quotes.find? (fits fmt) = none := by
+      rw [List.find?_eq_none]; intro q hq; simp [hno q hq]
+    simp [normFstrL, fixFstr, h, this]
+  · rintro ⟨q, hq, hf⟩
+    cases hfind : quotes.find? (fits fmt) with
+    | some q' => exact ⟨q', rfl⟩
+    | none =>
+      rw [List.find?_eq_none] at hfind
+      exact absurd hf (by simpa using hfind q hq)
+
+/-- the repaired witness of D25, a text with both kinds of quotes, a text with a newline, and a text
+for which no delimiter fits -/
+example : normFstrL true "{d['k']}".toList = some "f\"{d['k']}\"".toList ∧
+    normFstrL true "it's \"{a}\"".toList = some "f'''it's \"{a}\"'''".toList ∧
+    normFstrL true "a\nb".toList = some "f'''a\nb'''".toList ∧
+    normFstrL true "a'''b\"".toList = some "f'a\\'\\'\\'b\"'".toList := by decide
+
+/--
 The condition of `C12_fstr_normalise` is exact: the two forms of the same format text give the same
 node if and only if the text has no single quote, no newline and does not look like an f-string
-literal.  (With a single quote the explicit form is escaped, `it's` ↦ `f'it\'s'`, and the implicit
-text `f'it's'` is taken as it is; with a newline the implicit resolver does not match; a text like
-`f"x"` under `!fstr` is taken as the literal itself.)
+literal.  (With a single quote the explicit form takes another delimiter and the implicit text
+`f'it's'` is taken as it is; with a newline the implicit resolver does not match; a text like `f"x"`
+under `!fstr` is taken as the literal itself.)
 -/
 theorem C12_fstr_normalise_iff (fmt : Str) :
     normFstrL false (fLit '\'' fmt) = normFstrL true fmt ↔
@@ -287,109 +264,100 @@ theorem C12_fstr_normalise_iff (fmt : Str) :
       simp [fLit] at this
       omega
     | false =>
-      simp only [normFstrL, fixFstr, hw, Bool.true_or, if_true, Option.some.injEq, Bool.false_eq_true,
-        if_false, fLit] at h
-      have h' : escapeQ fmt = fmt := by simpa using (List.append_cancel_right h).symm
-      exact ⟨(escapeQ_eq_self_iff fmt).mp h', hnl, rfl⟩
+      refine ⟨?_, hnl, rfl⟩
+      cases hfind : quotes.find? (fits fmt) with
+      | none =>
+        simp only [normFstrL, fixFstr, hw, hfind, Bool.true_or, if_true, Option.some.injEq, Bool.false_eq_true,
+          if_false, fLit] at h
+        have h' : escapeQ fmt = fmt := by simpa using (List.append_cancel_right h).symm
+        exact (escapeQ_eq_self_iff fmt).mp h'
+      | some q =>
+        have hfit : fits fmt q = true := List.find?_some hfind
+        have hmem : q ∈ quotes := List.mem_of_find?_eq_some hfind
+        simp only [normFstrL, fixFstr, hw, hfind, Bool.true_or, if_true, Option.some.injEq, Bool.false_eq_true,
+          if_false, fLit, fLitQ] at h
+        have hlen := congrArg List.length h
+        simp only [quotes, List.mem_cons, List.not_mem_nil, or_false] at hmem
+        rcases hmem with rfl | rfl | rfl | rfl
+        · intro hm
+          have : hasSub ['\''] fmt = true := by simp [hasSub_single, hm]
+          simp [fits, this] at hfit
+        · simp at h
+        · simp at hlen
+        · simp at hlen
   · intro ⟨h1, h2, h3⟩
     obtain ⟨a, b⟩ := C12_fstr_normalise fmt h1 h2 h3
     rw [a, b]
 
 example : normFstrL false (fLit '\'' "it's".toList) ≠ normFstrL true "it's".toList ∧
-    normFstrL true "it's".toList = some "f'it\\'s'".toList ∧
+    normFstrL true "it's".toList = some "f\"it's\"".toList ∧
     normFstrL true "f\"x\"".toList = some "f\"x\"".toList ∧
     normFstrL false (fLit '\'' "a\nb".toList) = none := by decide
 
 /--
-The double-quoted implicit form `f"fmt"` keeps its delimiter: its code is `f"fmt"` while `!fstr fmt`
-gives `f'fmt'` — not the same literal, but literals with the same format text.
+The double-quoted implicit form `f"fmt"` keeps its delimiter.  When the text has no single quote the
+explicit form gives `f'fmt'` — not the same literal, but a literal with the same format text; when
+the text has a single quote (and no double quote) the explicit form gives `f"fmt"` itself.
 -/
-theorem C12_fstr_normalise_dq (fmt : Str) (h1 : '\'' ∉ fmt) (h2 : '\n' ∉ fmt) (h3 : wellFormed fmt = false) :
+theorem C12_fstr_normalise_dq (fmt : Str) (h2 : '\n' ∉ fmt) (h3 : wellFormed fmt = false) :
     normFstrL false (fLit '"' fmt) = some (fLit '"' fmt) ∧
-    normFstrL true fmt = some (fLit '\'' fmt) ∧
-    fstrBody (fLit '"' fmt) = fstrBody (fLit '\'' fmt) ∧
-    fLit '"' fmt ≠ fLit '\'' fmt := by
+    ('\'' ∉ fmt → normFstrL true fmt = some (fLit '\'' fmt) ∧
+        fstrBody (fLit '"' fmt) = fstrBody (fLit '\'' fmt) ∧ fLit '"' fmt ≠ fLit '\'' fmt) ∧
+    ('\'' ∈ fmt → '"' ∉ fmt → normFstrL true fmt = normFstrL false (fLit '"' fmt)) := by
   have hq : isQuote '"' = true := by decide
-  refine ⟨?_, (C12_fstr_normalise fmt h1 h2 h3).2, ?_, ?_⟩
-  · simp [normFstrL, fstrRegex_fLit _ _ hq, fixFstr, wellFormed_fLit _ _ hq, h2]
-  · simp [fstrBody, fLit]
-  · simp [fLit]
+  have himp : normFstrL false (fLit '"' fmt) = some (fLit '"' fmt) := by
+    simp [normFstrL, fstrRegex_fLit _ _ hq, fixFstr, wellFormed_fLit _ _ hq, h2]
+  refine ⟨himp, ?_, ?_⟩
+  · intro h1
+    exact ⟨(C12_fstr_normalise fmt h1 h2 h3).2, by simp [fstrBody, fLit], by simp [fLit]⟩
+  · intro h1 hd
+    have hs : fits fmt ['\''] = false := by simp [fits, hasSub_single, h1]
+    have hl : fmt.getLast? ≠ some '"' := by
+      intro h; exact hd (List.mem_of_getLast? h)
+    have hdq : fits fmt ['"'] = true := by simp [fits, hasSub_single, hd, h2, hl]
+    rw [himp]
+    simp [normFstrL, fixFstr, h3, quotes, hs, hdq, fLitQ, fLit]
 
 example : normFstrL false "f\"x{a}\"".toList = some "f\"x{a}\"".toList ∧
-    fstrBody "f\"x{a}\"".toList = "x{a}".toList := by decide
+    fstrBody "f\"x{a}\"".toList = "x{a}".toList ∧
+    normFstrL true "{d['k']}".toList = normFstrL false "f\"{d['k']}\"".toList := by decide
 
 /-! ### 4. the namespace registry across builds -/
 
-/-- "The value depends only on the current build": every namespace of a history is the one its
-step would get in a fresh process -/
-def HistoryIndependent : Prop := ∀ hist : List Step, runHist [] hist = hist.map freshGlobals
-
-/-- the witness: the multi-line node `r` with code `y = 1⏎s + y`, built twice in one process; the
-first build supplies the eval symbol `s`, the second one does not but has a config entry `s` -/
-def C12.exCode : Str := "y = 1\ns + y".toList
-def C12.exHist : List Step :=
-  [(⟨0, ["s"], ["r"]⟩, ⟨"r".toList, C12.exCode, true, ["y"], false⟩),
-   (⟨1, [], ["r", "s"]⟩, ⟨"r".toList, C12.exCode, true, ["y"], false⟩)]
-
 /--
-FINDING (D11), negation of "never on what was built earlier in the same process" for the code as it
-is: the second build of the witness finds the cached module of the first, so the name `s` resolves
-to the eval symbol of build 0 although build 1 has no such symbol and has a config entry `s`
-(the order of the property gives the config entry of build 1), and `ayns` is the one of build 0.
+C12, "The value depends only on the current build - its config, its evaluation context and its
+symbols - never on what was built earlier in the same process", at full strength: for EVERY history
+of node evaluations in one process and every state of the registry it starts from, the namespace of
+every step is the one built from the step's own context (what a fresh process would give); hence
+every name that is not one of the injected ones resolves in the stated order over the definitions,
+symbols and config of *that* build, and every value that is not a builtin was supplied by that build.
 -/
-theorem C12_history_independent_fails :
-    ¬ HistoryIndependent ∧
-    ((runHist [] C12.exHist).map (fun g => Globals.lookup [] g "s")) = [(.sym, some 0), (.sym, some 0)] ∧
-    (C12.exHist.map (fun s => Globals.lookup [] (freshGlobals s) "s")) = [(.sym, some 0), (.cfg, some 1)] ∧
-    ((runHist [] C12.exHist).map (fun g => Globals.lookup [] g "ayns")) = [(.injected, some 0), (.injected, some 0)] := by
-  refine ⟨?_, by decide, by decide, by decide⟩
-  intro h
-  exact absurd (h C12.exHist) (by decide)
-
-/--
-C12, "The value depends only on the current build", the part that holds for the code as it is: in
-every history in which no published module is met again (`NoReuse`: no multi-line persistent node
-with the same path and code is evaluated after one that completed — in particular every history of
-single-line `!eval` nodes and f-strings, and every history of pairwise different codes), the
-namespace of every step is the one built from the step's own context; hence (by
-`C12_resolution_order`) every name resolves in the stated order over the definitions, symbols and
-config of *that* build, with provenance that build.
--/
-theorem C12_history_independent_partial (hist : List Step) (h : NoReuse hist) :
-    runHist [] hist = hist.map freshGlobals ∧
+theorem C12_history_independent (reg : Registry) (hist : List Step) :
+    runHist reg hist = hist.map freshGlobals ∧
     ∀ s ∈ hist, ∀ builtins name, name ∉ reserved →
       Globals.lookup builtins (freshGlobals s) name
         = (resolve s.2.defs s.1.syms s.1.cfg builtins name,
            if name ∈ s.2.defs ∨ name ∈ s.1.syms ∨ name ∈ s.1.cfg then some s.1.build else none) := by
   constructor
-  · exact runHist_noReuse hist [] (fun _ _ _ => rfl) h
+  · exact runHist_fresh hist reg
   · intro s _ builtins name hn
-    have : freshGlobals s = { dict := execDefs s.2.defs s.1.build (freshDict s.1), cfg := s.1.cfg, build := s.1.build } := by
-      unfold freshGlobals evalStep baseDict
-      cases s.2.persistent <;> simp [Registry.get]
-    rw [this]
     exact C12_resolution_order builtins s.2.defs s.1 name hn
 
-/-- non-vacuity: a history with a repeated single-line node, an f-string and two different
-multi-line nodes satisfies `NoReuse`; the witness of the finding does not -/
-example : NoReuse
-    [(⟨0, ["s"], ["a"]⟩, ⟨"r".toList, "s + a".toList, true, [], false⟩),
-     (⟨1, [], ["a", "s"]⟩, ⟨"r".toList, "s + a".toList, true, [], false⟩),
-     (⟨1, [], ["a", "s"]⟩, ⟨"q".toList, "f'{a}'".toList, false, [], false⟩),
-     (⟨2, [], ["a"]⟩, ⟨"r".toList, "y = 1\na + y".toList, true, ["y"], false⟩),
-     (⟨3, [], ["a"]⟩, ⟨"r".toList, "y = 2\na + y".toList, true, ["y"], false⟩)] := by
-  simp [NoReuse, publishes, Req.key]
-  decide
+/-- the former witness of D11: the multi-statement node `r` built twice, first with the eval symbol
+`s`, then without it but with a config entry `s` -/
+def C12.exHist : List Step :=
+  [(⟨0, ["s"], ["r"]⟩, ⟨"r".toList, "y = 1\ns + y".toList, 2, true, ["y"], false⟩),
+   (⟨1, [], ["r", "s"]⟩, ⟨"r".toList, "y = 1\ns + y".toList, 2, true, ["y"], false⟩)]
 
-example : ¬ NoReuse C12.exHist := by
-  simp [NoReuse, publishes, C12.exHist, Req.key, Req.multiLine]
+example : ((runHist [] C12.exHist).map (fun g => Globals.lookup [] g "s")) = [(.sym, some 0), (.cfg, some 1)] ∧
+    ((runHist [] C12.exHist).map (fun g => Globals.lookup [] g "ayns")) = [(.injected, some 0), (.injected, some 1)] ∧
+    ((runHist [] C12.exHist).map (fun g => Globals.lookup [] g "y")) = [(.defn, some 0), (.defn, some 1)] := by
   decide
 
 /--
-C12, the part of history-independence that holds in every history, reuse or not: a name that is
-not in the dict part of the namespace is looked up in the config of the current build (the
-`EvalGlobals` wrapper is rebuilt around the current `ctx.ecfg` on every evaluation), never in an
-earlier one.
+C12, the config part of history-independence, stated on the mechanism: a name that is not in the
+dict part of the namespace is looked up in the config of the current build (the `EvalGlobals` wrapper
+is built around the current `ctx.ecfg` on every evaluation), never in an earlier one.
 -/
 theorem C12_history_config_current (reg : Registry) (c : Ctx) (r : Req) (builtins : List String) (n : String)
     (h : (Globals.lookup builtins (evalStep reg c r).1 n).1 = .cfg) :
@@ -403,5 +371,23 @@ theorem C12_history_config_current (reg : Registry) (c : Ctx) (r : Req) (builtin
     · split at h <;> simp at h
 
 example : (Globals.lookup [] ((runHist [] C12.exHist).getD 1 ⟨[], [], 9⟩) "r") = (.cfg, some 1) := by decide
+
+/--
+The registry is write-only: after a step a module exists under a key exactly when the step publishes
+under that key (persistent node, more than one statement, no error) or the module existed before.
+-/
+theorem C12_history_publication (reg : Registry) (c : Ctx) (r : Req) (k : Key) :
+    (Registry.get (evalStep reg c r).2 k).isSome =
+      ((publishes r && decide (k = r.key)) || (Registry.get reg k).isSome) := by
+  unfold evalStep
+  by_cases hp : publishes r = true
+  · by_cases hk : k = r.key
+    · simp [hp, hk, Registry.set, Registry.get]
+    · simp [hp, hk, Registry.set, Registry.get]
+  · simp [hp]
+
+example : ((runReg [] C12.exHist).map (·.1)) = [("r".toList, "y = 1\ns + y".toList), ("r".toList, "y = 1\ns + y".toList)] ∧
+    (runReg [] [(⟨0, [], []⟩, ⟨"r".toList, "a + 1".toList, 1, true, [], false⟩),
+                (⟨0, [], []⟩, ⟨"q".toList, "f'{a}'".toList, 1, false, [], false⟩)]) = [] := by decide
 
 end AY
